@@ -10,6 +10,9 @@ CHECKS = {
     'C01': ('exploration', 'runtime monitoring: every NEWSA request and IKE keyring of both daemons compared online with an independent RFC 7296 key schedule fed from the wire and the tapped DH private values; mirror-image comparison of the two model SADs after every completed negotiation',
             'Configuration pairs with differing preference orders (all ENCR key lengths, INTEG, PRF, DH groups, ESP/AH, modes, IPv4/IPv6, PSK/RSA, PFS on/off, COOKIE / INVALID_KE retries) run long histories of successful negotiations (initial, new CHILD, CHILD rekey, IKE rekey, again on the successor) sequentially and as crossing exchanges; each installed SA must carry exactly the direction keys, algorithms, addresses, mode and selectors the reference derives, each keyring must equal the reference, and both kernels must hold equal records. Held on the executions observed.',
             'honest peers, lossless delivery; lifetimes excluded from the mirror comparison (per-side jitter by design); reference = hashlib/hmac/python-int DH', '2/C01'),
+    'C02': ('exploration', 'runtime monitoring with an independent active RFC 7296 party as adversary (impostor, persistent man in the middle) and an online AUTH re-verification oracle at every establishment',
+            'An independent implementation (own DH, key schedule, SK protection, AUTH computation) plays initiator and responder against real endpoints with ~30 AUTH / identity / method variants per role and method; the victim may establish or install iff the reference, using the victim\'s configured credential and the exact octets the victim saw, finds AUTH and ID valid (valid controls must be accepted). A persistent man in the middle applies each of ~70 field-level rewrites (semantic and octets-only) to every IKE_SA_INIT request or response: the receiver must never establish. 20 pairs of mismatching configurations are run with either side initiating and every accepted AUTH is re-verified online.',
+            'the adversary controls the network but has only the stated credentials; RSA verification by the cryptography primitive', '2/C02'),
     'C03': ('exploration', 'runtime monitoring: full-state snapshot equality, kernel-request counter and reply oracle around every injected non-authentic datagram (classified by an independent ICV check), in every keyed state of both roles',
             'A scenario catalogue reaches all 24 (role, keyed state) combinations incl. every request-outstanding state, REKEYED, DEL_AFTER_REKEY and rekeyed successors; in each, ~1 400 forged datagrams (cleartext of every exchange type / flag / Message ID around the window / payload set, every truncation, bit flips, resizes of authentic datagrams, messages under other keys, reflections) are fed through the real main_loop, dispatch_message and process_message; nothing observable may change and nothing may be answered except the cached IKE_SA_INIT response.',
             'snapshot = state, both counters, CHILD_SAs, DPD deadline, retransmission fields, cached response, pending events, successor, SAD, netlink request count; quick tier flips 3 bit positions per octet', '2/C03'),
